@@ -1,6 +1,6 @@
 (* props/C20.v - C20: the optimiser terminates normally and does the work requested. *)
 From Coq Require Import ZArith NArith List Bool Reals Floats.
-From PV Require Import Num NumR model.Optimiser model.OptSpec proofs.OptStruct proofs.OptLoop proofs.FloatFacts proofs.RealFacts.
+From PV Require Import Num NumR model.Optimiser model.OptSpec proofs.OptStruct proofs.OptLoop proofs.OptConv proofs.FloatFacts proofs.RealFacts.
 
 Theorem C20_work_bounds :
   forall (NN : Num) (c : cfg NN), (work NN c <= steps NN c)%N /\ (inner NN c <> 0%N -> (steps NN
@@ -45,4 +45,40 @@ Theorem C08_held_score_defined :
     (init NN c ps hs s0) draws).
 Proof. exact OptLoop.C08_held_score_defined. Qed.
 Print Assumptions C08_held_score_defined.
+
+Theorem C20_convergence_prefix :
+  forall (NN : Num) (fexp : carrier NN -> carrier NN) (score : N -> list (carrier NN) -> option
+    (carrier NN)) (c : cfg NN) (eps : carrier NN) (draws : list (draw NN)), conv NN c = Some eps
+    -> forall a b : ost NN, agree NN a b -> conv_fin NN a -> converged NN (run NN fexp score c a
+    draws) = false -> agree NN (run NN fexp score c a draws) (run NN fexp score (no_conv NN c) b
+    draws).
+Proof. exact OptConv.C20_convergence_prefix. Qed.
+Print Assumptions C20_convergence_prefix.
+
+Theorem C20_convergence_point :
+  forall (NN : Num) (fexp : carrier NN -> carrier NN) (score : N -> list (carrier NN) -> option
+    (carrier NN)) (c : cfg NN) (eps : carrier NN) (draws : list (draw NN)) (d : draw NN), conv
+    NN c = Some eps -> forall a : ost NN, conv_fin NN a -> converged NN (run NN fexp score c a
+    draws) = false -> converged NN (run NN fexp score c a (draws ++ d :: nil)) = true -> (5 <
+    conv_count NN (run NN fexp score c a (draws ++ d :: nil)))%N /\ j NN (run NN fexp score c a
+    (draws ++ d :: nil)) = 0%N /\ params NN (run NN fexp score c a (draws ++ d :: nil)) = params
+    NN (run NN fexp score (no_conv NN c) a (draws ++ d :: nil)) /\ score_cur NN (run NN fexp
+    score c a (draws ++ d :: nil)) = score_cur NN (run NN fexp score (no_conv NN c) a (draws ++
+    d :: nil)).
+Proof. exact OptConv.C20_convergence_point. Qed.
+Print Assumptions C20_convergence_point.
+
+Theorem C20_counter_is_consecutive :
+  forall (NN : Num) (c : cfg NN) (eps : carrier NN) (st : ost NN), conv NN c = Some eps ->
+    conv_count NN (end_loop NN c st) = (if loop_converged NN eps st then N.succ (conv_count NN
+    st) else 0%N).
+Proof. exact OptConv.C20_counter_is_consecutive. Qed.
+Print Assumptions C20_counter_is_consecutive.
+
+Theorem C20_converged_is_finished :
+  forall (NN : Num) (fexp : carrier NN -> carrier NN) (score : N -> list (carrier NN) -> option
+    (carrier NN)) (c : cfg NN) (st : ost NN) (d : draw NN), conv_fin NN st -> conv_fin NN
+    (advance NN fexp score c st d).
+Proof. exact OptConv.advance_conv_fin. Qed.
+Print Assumptions C20_converged_is_finished.
 
